@@ -41,7 +41,7 @@ func (s *Sim) newGates(tx *TXPlan) *opGates {
 				at = prev
 			}
 			prev = at
-			s.W.At(time.Duration(at), fmt.Sprintf("txop:%02d:%03d", ti, oi), func() { close(c) })
+			s.W.At(time.Duration(at)+s.W.HarnessJitter("txop", ti, oi), fmt.Sprintf("txop:%02d:%03d", ti, oi), func() { close(c) })
 		}
 		g.ch = append(g.ch, l)
 	}
@@ -125,6 +125,8 @@ func (s *Sim) runTX(res *Result, horizon time.Duration) {
 		}
 		w.At(0, "txop:", func() { go starter() })
 		w.Run(horizon)
+		// let calls that are parked half-way complete before the final observation
+		w.Drain()
 		if t != nil {
 			d := int64(0)
 			if isDone() {
